@@ -75,7 +75,25 @@ structure TMsg where
   id : Nat
   eot : Bool
   time : Int
+  /-- `isinstance(msg.time, Integral)` -/
+  timeIsInt : Bool := true
+  /-- `msg.is_realtime`, `msg.is_meta`, `msg.type == 'sysex'` -/
+  isRealtime : Bool := false
+  isMeta : Bool := false
+  isSysex : Bool := false
+  /-- `msg.bytes()` (may raise: a text the charset cannot encode, a payload item that is no byte) -/
+  bytes : Except Err (List Int) := .ok []
+  /-- `msg.data` of a sysex message -/
+  data : List Int := []
   deriving DecidableEq, Repr, Inhabited
+
+/-- `struct.pack('>L', n)`; the range test is written with a division (`0 ≤ n < 2^32`) because a comparison of a
+    symbolic value with a ten-digit literal makes the kernel unfold the literal in unary when it has to
+    reduce the test -/
+def packU32 (n : Int) : Except Err (List Int) :=
+  if 0 ≤ n ∧ n / 4294967296 = 0 then
+    .ok [n / 16777216 % 256, n / 65536 % 256, n / 256 % 256, n % 256]
+  else .error .StructError
 
 /-- `messages.sort(key=lambda msg: msg.time)`: CPython's `list.sort` is stable -/
 def sortByTime (ms : List TMsg) : List TMsg := ms.mergeSort (fun a b => decide (a.time ≤ b.time))
